@@ -39,6 +39,9 @@ func init() {
 			}},
 			{ID: "C16.R17", Text: "the state endpoints answer from the live state: the offset/followers/status/rebalance handlers store nothing into the API object or package-level variables", Run: apiHandlersStateless},
 			{ID: "C16.R18", Text: "member number and group size are those of the announcement in effect: bus-fed memberships record the announced object and never update a kept one in place (same rule as C10.R17)", Run: firstInfoHandOver},
+			{ID: "C16.R19", Text: "a state query reaches the endpoint that answers from the live state: routes and middlewares as registered (same rule as C10.R31)", Run: apiRoutesExact},
+			{ID: "C16.R20", Text: "what an endpoint or a scrape reports is read now, not remembered process-wide (same rule as C18.R9)", Run: globalsFrozen},
+			{ID: "C16.R21", Text: "a scrape asks the cluster itself and is not queued behind another: no coalescing or serialising layer in front of the client or the collector that is not a proven pass-through (same rules as C20.R19 and C20.R20)", Run: func(c *Ctx, id string) { decoratorsTransparent()(c, id); noNewLayers(c, id) }},
 			{ID: "C16.R5", Text: "active-stream count: set at open, decremented once per final end only (same rules as C12.R1, C12.R2)", Run: func(c *Ctx, id string) { c12r1(c, id); c12r2counter(c, id) }},
 		},
 	})
